@@ -132,7 +132,7 @@ pub fn run(e: &Engine) {
 pub fn replay(sub: &str, case: &Value) -> Option<CheckResult> {
     let mut rec = Rec::new(0);
     Some(crate::engine::guarded(|| match sub {
-        "large-recipes" => check_recipe(&Recipe::from_json(case).ok_or_else(bad)?, &mut rec),
+        "large-recipes" | "one-file-over-16MiB" => check_recipe(&Recipe::from_json(case).ok_or_else(bad)?, &mut rec),
         _ => check(&FstInput::from_json(case).ok_or_else(bad)?, &mut rec),
     }))
 }
